@@ -43,6 +43,7 @@ import udpcl.config as uconfig
 PENDING_FINDINGS = []
 
 BIG = 3000   # bundles longer than this go to their own (small) shards of Coq evaluation
+SHARDS = 8   # coqc processes per suite (each pays the start-up of loading the libraries)
 FULL = 200   # datagrams of bundles up to this length are compared octet for octet, longer ones by (length, first 24 octets, digest)
 
 PEERS = {1: ('10.0.0.1', 4556), 2: ('10.0.0.1', 4557), 3: ('10.0.0.2', 4556)}
@@ -132,7 +133,7 @@ def pattern(seed, length):
 
 
 def gen_data(seed, length):
-    return pattern(seed, length) if length > BIG else mkdata(seed, length)
+    return pattern(seed, length) if length > 64 else mkdata(seed, length)
 
 
 # ----------------------------------------------------------------------------------------------
@@ -445,10 +446,10 @@ def gen_send_cases(chk, scale=1):
             for length in (mtu - 1, mtu, mtu + 7, 2 * mtu, 300, 700):
                 add(mtu, length, xid)
     # long bundles: total / offset heads of 3 and 5 octets
-    longs = [(1400, 65535), (1400, 65536), (65536, 65536), (65535, 65536), (600, 65536), (40000, 65537), (200, 9000)]
+    longs = [(1400, 65535), (1400, 65536), (65536, 65536), (65535, 65536), (40000, 65537), (200, 9000)]
     if not quick:
         longs += [(1400, 65537), (9000, 70000), (65535, 65535), (65537, 65536), (65536, 65537), (65536, 131072),
-                  (40000, 65535), (64, 9000), (300, 65536), (200, 20000), (70000, 200000), (24, 65536), (30, 70000), (65537, 200000), (1280, 300000), (100, 66000)]
+                  (40000, 65535), (64, 9000), (300, 65536), (600, 65536), (200, 20000), (70000, 200000), (24, 65536), (30, 70000), (65537, 200000), (1280, 300000), (100, 66000)]
     for (mtu, length) in longs:
         add(mtu, length, 0)
         if not quick or mtu == 1400:
@@ -746,15 +747,17 @@ def run_all(chk):
         if mtu is not None and nseg >= 2:
             chk.count('send_boundary', 'largest datagram == mtu' if tight else 'largest datagram < mtu')
     run.phase('send:real')
+    # one evaluation for all send cases; the long bundles are spread evenly over the shards
     small = [pos for (pos, case) in enumerate(send_cases) if case[3] <= BIG]
     large = [pos for (pos, case) in enumerate(send_cases) if case[3] > BIG]
-    model_small = chk.coq_eval('send', ['Model.Udpcl'], [c_send(*send_cases[pos]) for pos in small], 'run_send_view',
-                               chunk=max(20, -(-len(small) // 16)))
-    run.phase('send:coq-small(%d)' % len(small))
-    model_large = chk.coq_eval('sendbig', ['Model.Udpcl'], [c_send(*send_cases[pos]) for pos in large], 'run_send_view',
-                               chunk=max(1, -(-len(large) // 16)))
-    run.phase('send:coq-large(%d)' % len(large))
-    for (pos, mod) in list(zip(small, model_small)) + list(zip(large, model_large)):
+    order = list(small)
+    stride = max(1, len(order) // (len(large) + 1))
+    for (num, pos) in enumerate(large):
+        order.insert(min(len(order), num * (stride + 1)), pos)
+    model_send = chk.coq_eval('send', ['Model.Udpcl'], [c_send(*send_cases[pos]) for pos in order], 'run_send_view',
+                              chunk=max(30, -(-len(order) // SHARDS)))
+    run.phase('send:coq(%d, %d long)' % (len(order), len(large)))
+    for (pos, mod) in zip(order, model_send):
         (dgrams, term) = send_impl[pos]
         full = send_cases[pos][3] <= FULL
         got = [(ent[0], bytes(ent[1]), ent[2]) for ent in mod[0]] if mod else None
@@ -775,6 +778,10 @@ def run_all(chk):
         (lists, obs) = run.impl_xfers(xfers, arrival)
         xfer_impl.append((lists, obs))
         run.check_xfers(xfers, arrival, lists, obs)
+        if obs is None:
+            # the sender produced fewer datagrams than the arrival refers to (only after a change of the sender)
+            chk.count('recv_kind', 'skipped: arrival refers to a datagram the sender did not produce')
+            continue
         order = [dix for (_p, _t, dix) in arrival]
         chk.case(('xfers', tuple(xfers), tuple(arrival)), nontrivial=(order != sorted(order) or kind != 'perm'),
                  sample=samp(chk, 5, dict(suite='recv', kind=kind, transfers=[list(x) for x in xfers], arrival=[list(a) for a in arrival],
@@ -782,7 +789,7 @@ def run_all(chk):
         chk.count('recv_kind', kind)
         chk.count('recv_arrivals', len(arrival) if len(arrival) <= 5 else ('6-12' if len(arrival) <= 12 else '>12'))
     run.phase('xfers:real(%d)' % len(xfer_cases))
-    model = chk.coq_eval('xfers', ['Model.Udpcl'], [c_xfers(xf, arr) for (xf, arr, _k) in xfer_cases], 'run_xfers', chunk=max(30, -(-len(xfer_cases) // 16)))
+    model = chk.coq_eval('xfers', ['Model.Udpcl'], [c_xfers(xf, arr) for (xf, arr, _k) in xfer_cases], 'run_xfers', chunk=max(30, -(-len(xfer_cases) // SHARDS)))
     for ((xfers, arrival, kind), (lists, obs), mod) in zip(xfer_cases, xfer_impl, model):
         if obs is None:
             continue
@@ -820,7 +827,7 @@ def run_all(chk):
         chk.case(('recv', tuple(arrival)), nontrivial=len(arrival) > 1, sample=None)
         chk.count('recv_crafted_outcome', 'raised' if any(r for (_n, r) in obs['trace']) else ('queued' if obs['queue'] else 'nothing-queued'))
     run.phase('recv:real(%d)' % len(recv_cases))
-    model = chk.coq_eval('recv', ['Model.Udpcl'], [c_recv(arr) for (arr, _o) in recv_cases], 'run_recv', chunk=max(30, -(-len(recv_cases) // 16)))
+    model = chk.coq_eval('recv', ['Model.Udpcl'], [c_recv(arr) for (arr, _o) in recv_cases], 'run_recv', chunk=max(12, -(-len(recv_cases) // SHARDS)))
     for ((arrival, obs), mod) in zip(recv_cases, model):
         (m_trace, m_queue, m_prog) = mod
         if any(code == 2 for (_n, code) in m_trace):
